@@ -26,18 +26,21 @@ fn finding(sig: &str, what: String) -> Finding {
     Finding { signature: sig.to_string(), what }
 }
 
+/// The property is evaluated with two readings of "the XHTML namespace": the real URI (the crate
+/// spells its constant `https://…`, so it treats these elements as foreign: every failure on them
+/// is a consequence of that constant and is reported under the one signature of that known
+/// finding) and the crate's own constant (so that the rest of the HTML logic is exercised and
+/// reported under the ordinary signatures).
 #[derive(Clone, Copy, PartialEq, Debug)]
 pub enum NsClass {
-    Html,    // no namespace or the XHTML namespace
-    Https,   // the crate's misspelt constant: foreign by the property
+    Html,     // no namespace, the XHTML namespace, the crate's XHTML constant
     Embedded, // MathML, SVG
     Foreign,
 }
 
 pub fn ns_class(uri: &str) -> NsClass {
     match uri {
-        "" | XHTML_URI => NsClass::Html,
-        HTTPS_URI => NsClass::Https,
+        "" | XHTML_URI | HTTPS_URI => NsClass::Html,
         MATHML_URI | SVG_URI => NsClass::Embedded,
         _ => NsClass::Foreign,
     }
@@ -88,10 +91,10 @@ impl<'a> Checker<'a> {
         t
     }
     /// Signature for a failure at an element: the XHTML-constant defect explains every failure on
-    /// elements of the real XHTML namespace and of the `https` look-alike.
+    /// elements of the real XHTML namespace.
     fn elem_sig(&self, uri: &str, sig: &str) -> String {
         match uri {
-            XHTML_URI | HTTPS_URI => "C19:xhtml-namespace-constant-is-https".to_string(),
+            XHTML_URI => "C19:xhtml-namespace-constant-is-https".to_string(),
             _ => sig.to_string(),
         }
     }
@@ -287,8 +290,16 @@ impl<'a> Checker<'a> {
         let in_scope = default_here.clone().unwrap_or(inherited);
         if class == NsClass::Embedded {
             if in_scope != uri {
+                // declared by an enclosing start tag of the output but overridden by a nearer one
+                // (the serialiser keeps both bindings of the empty prefix), or declared nowhere
+                // above (the binding injected for an earlier element outlived that element)
+                let sig = if self.default_ns.contains(&uri) {
+                    "C19:mathml-svg-under-shadowed-default-namespace-declaration"
+                } else {
+                    "C19:mathml-svg-without-default-namespace-declaration"
+                };
                 return Err(finding(
-                    "C19:mathml-svg-without-default-namespace-declaration",
+                    sig,
                     format!("element {{{}}}{} is written <{}> where the default namespace of the output is {:?}", uri, local, tag, in_scope),
                 ));
             }
